@@ -37,7 +37,9 @@ def case3(n):
 
 def value_alphabets(outs, tier):
     strings = [b'plain', b'with inner  spaces', b'"q"', b"'q'", b'""q""', b"''q''", b'" lead trail "', b"' x '", b'a#b', b'a:b=c', b'x ;c', b'x;y', b'', b'"', b"'", b'"unbal',
-               b'%{cmdline}', b"\"'%{cmdline}'\"", b'\'"x"\'', b'"it\'s"', b'only_uid:0;exclude_uid:1']
+               b'%{cmdline}', b"\"'%{cmdline}'\"", b'\'"x"\'', b'"it\'s"', b'only_uid:0;exclude_uid:1',
+               # quotes of different kinds at the two ends are not a pair
+               b'"q\'', b'\'q"', b'"%{username}" ran \'%{cmdline}\'', b'\'a" "b\'', b'"\'', b'\'"']
     bools = [bytes([c]) for c in b'yYtT1nNfF0'] + [b'x', b'', b'yes', b'no', b'maybe', b'2', b'TRUE', b'off', b'on']
     fac, lvl = [], []
     for n in refini.FACILITIES:
@@ -50,7 +52,7 @@ def value_alphabets(outs, tier):
     outv = []
     for o in sorted(outs):
         outv += [o, o + b':arg', o + b':a:b', o + b':', o.upper()]
-    outv += [b'nosuch', b'nosuch:arg', b':', b':file', b'::', b':file:/x', b'', b'file:/var/log/x-%{datetime:%Y-%m-%d}', b'fil', b'files']
+    outv += [b'\'file:/x"', b'"stdout\'', b'"file:/y"', b'nosuch', b'nosuch:arg', b':', b':file', b'::', b':file:/x', b'', b'file:/var/log/x-%{datetime:%Y-%m-%d}', b'fil', b'files']
     nums = []
     for suf in (b'', b'k', b'K', b'm', b'M'):
         for n in (0, 1, 7, 254, 255, 256, 1023, 1024, 1025, 2047, 2048, 1048575, 1048576, 1048577, 2147483647, 2147483648, 4294967295, 4294967296, 4294967297, 99999999999999999999):
